@@ -305,7 +305,6 @@ func runURLCase(col *collector, idx int, u urlCase) {
 // plain scheme-less forms: absolute path, relative path, stdout, stderr are
 // part of the Open alphabet (ok-file, relative-file, stdout, stderr).
 
-
 // ---------------------------------------------------------------------------
 // scheme-less paths that merely CLEAN to the special names: only the literal
 // strings "stdout" and "stderr" denote the process streams; "./stdout" or
